@@ -51,6 +51,24 @@ type sseSession struct {
 	lastActivity        time.Time                 // Last activity time.
 	data                map[string]interface{}    // Session data.
 	dataMu              sync.RWMutex              // Data mutex.
+	ctx                 context.Context           // Ends when the session's stream is gone.
+	cancel              context.CancelFunc        // Ends ctx.
+}
+
+// sessionCallCtx is the context of a call processed inside a session: it ends with the session
+// (the embedded context) and carries the values of the request that brought the call.
+type sessionCallCtx struct {
+	context.Context
+	values context.Context
+}
+
+// Value looks the key up in the session's context first, so that contexts derived from this one
+// are cancelled with the session, and then in the request's values.
+func (c sessionCallCtx) Value(key interface{}) interface{} {
+	if v := c.Context.Value(key); v != nil {
+		return v
+	}
+	return c.values.Value(key)
 }
 
 // sseStream wraps the components required to write SSE responses safely.
@@ -412,6 +430,10 @@ func (s *SSEServer) handleSSE(w http.ResponseWriter, r *http.Request) {
 		data:                make(map[string]interface{}),
 	}
 	s.sessions.Store(sessionID, session)
+
+	// The session's own context: the calls processed inside the session end with it.
+	session.ctx, session.cancel = context.WithCancel(context.Background())
+	defer session.cancel()
 
 	// Apply context function.
 	ctx := r.Context()
@@ -884,6 +906,13 @@ func (s *SSEServer) createSessionContext(ctx context.Context, session *sseSessio
 func (s *SSEServer) processRequestAsync(ctx context.Context, request *JSONRPCRequest, session *sseSession) {
 	// Create a context that will not be canceled due to HTTP connection closure.
 	detachedCtx := icontext.WithoutCancel(ctx)
+
+	// The POST that carried the request is long answered, but the call belongs to the session:
+	// once the session's stream is gone nobody can receive the answer, so the handler's context
+	// ends with the session.
+	if session.ctx != nil {
+		detachedCtx = sessionCallCtx{Context: session.ctx, values: detachedCtx}
+	}
 
 	// Check if this is a response to our roots/list request.
 	if s.isRootsListResponse(request) {
